@@ -35,7 +35,8 @@ KINDS = ['str', 'bytes', 'int', 'nested', 'reprobj', 'longstr', 'surrstr']
 MOUNTS = ['/_meta/', '/m', '/', 'deep', 'static-first']
 # static-first: a static application and the meta application share one prefix, the static one listed first
 # (its misses fall through to the meta pages)
-MWSETS = ['none', 'cookie', 'custom', 'subclass', 'provides-shapes', 'ctxproc-of-resources']
+MWSETS = ['none', 'cookie', 'custom', 'subclass', 'provides-shapes', 'ctxproc-of-resources', 'cookie-positional',
+          'ctxproc-live-defaults']
 VIEWS = ['html', 'json']
 COOKIE_KEY = b'ZQCOOKIEKEY77abc'
 EXC_TYPES = ['ValueError', 'KeyError', 'RuntimeError', 'OSError', 'ZeroDivisionError', 'NotImplementedError', 'CustomError',
@@ -187,6 +188,14 @@ def build_host(resources, mwset, mount, meta=None):
         from clastic.middleware import SimpleContextProcessor
         names = [n for n in resources if n.isidentifier()]
         mws = [SimpleContextProcessor(*names)] if names else []
+    elif mwset == 'cookie-positional':
+        # the cookie middleware configured positionally, in the documented order (arg_name, cookie_name, secret_key)
+        mws = [SignedCookieMiddleware('session', 'sid', COOKIE_KEY)]
+    elif mwset == 'ctxproc-live-defaults':
+        # context defaults that are live objects (a lock, a module, an open file): handed to templates, never copied
+        import threading
+        from clastic.middleware import ContextProcessor
+        mws = [ContextProcessor(defaults={'zq_lock': threading.Lock(), 'zq_settings': os, 'zq_gen': (x for x in [1])})]
     elif mwset == 'badrepr':
         class BadReprMW(Middleware):
             def __repr__(self):
